@@ -10,7 +10,7 @@ def render_corpus(ctx, prop, tier, cfg, world):
     d = os.path.join(ctx['src'], 'zzverif', 'worlds', 'render', 'corpus')
     seed = int(os.environ.get('VERIF_SEED', '1') or '1')
     tcfg = cfg['tiers'][tier]
-    dropped = {'shapes': set(), 'ashapes': set()}
+    dropped = {'shapes': set(), 'ashapes': set(), 'bshapes': set()}
     for attempt in range(6):
         src, reg, js = shapes.generate(seed, tcfg.get('shapes', 64), tcfg.get('ashapes', 48), dropped)
         for name, text in (('shapes.templ', src), ('shapes_reg.go', reg), ('shapes.json', js)):
@@ -24,7 +24,7 @@ def render_corpus(ctx, prop, tier, cfg, world):
             break
         # which seeded templates do the errors belong to?
         gen = open(os.path.join(d, 'shapes_templ.go')).read().split('\n')
-        starts = [(i + 1, m.group(1), int(m.group(2))) for i, l in enumerate(gen) for m in [re.match(r'func (A?Shape)(\d+)\(', l)] if m]
+        starts = [(i + 1, m.group(1), int(m.group(2))) for i, l in enumerate(gen) for m in [re.match(r'func ([AB]?Shape)(\d+)\(', l)] if m]
         bad = set()
         other = []
         for m in re.finditer(r'corpus/([a-z_]+\.go):(\d+):\d+: (.*)', b.stdout):
@@ -40,10 +40,10 @@ def render_corpus(ctx, prop, tier, cfg, world):
         if other or not bad:
             raise Infra('the render corpus does not compile:\n' + b.stdout[-3000:])
         for kind, i in bad:
-            dropped['shapes' if kind == 'Shape' else 'ashapes'].add(i)
+            dropped[{'Shape': 'shapes', 'AShape': 'ashapes', 'BShape': 'bshapes'}[kind]].add(i)
     else:
         raise Infra('seeded templates still do not compile after dropping %s' % dropped)
-    nd = len(dropped['shapes']) + len(dropped['ashapes'])
+    nd = len(dropped['shapes']) + len(dropped['ashapes']) + len(dropped['bshapes'])
     if nd:
         note = 'generated code of %d seeded template(s) did not compile; they were replaced by trivial ones: Shape%s AShape%s' % (nd, sorted(dropped['shapes']), sorted(dropped['ashapes']))
         log('[prep %s] WARNING: %s' % (prop, note))
